@@ -236,9 +236,17 @@ func PlayCopyBin(scn M, rng *rand.Rand) ([]M, error) {
 	for j, o := range oids {
 		cols = append(cols, M{"name": fmt.Sprintf("c%d", j), "oid": o})
 	}
+	// the handler either swallows a failure of the row reader and completes, or returns it (the COPY then
+	// fails: one ErrorResponse, one ReadyForQuery, and the connection goes on)
+	mode := "swallow"
+	if rng.Intn(2) == 0 {
+		mode = "ret"
+	}
 	q := M{"id": 1, "parse": "ok", "stmts": []any{M{"id": 1, "cols": cols, "oids": []any{},
-		"prog": []any{M{"op": "copyin", "fmt": 1}, M{"op": "bincopy"}, M{"op": "complete", "tag": "COPY"}, M{"op": "ret", "r": "nil"}}}}}
+		"prog": []any{M{"op": "copyin", "fmt": 1}, M{"op": "bincopy", "onerr": mode}, M{"op": "complete", "tag": "COPY"}, M{"op": "ret", "r": "nil"}}}}}
 	x.scripts["q1"] = q
+	x.scripts["q2"] = M{"id": 2, "parse": "ok", "stmts": []any{M{"id": 2, "cols": []any{}, "oids": []any{},
+		"prog": []any{M{"op": "complete", "tag": "PROBE"}, M{"op": "ret", "r": "nil"}}}}}
 	conn.WaitQuiet(WaitTimeout) //nolint
 	conn.Send(pgw.Startup(pgw.Version30, [][2]string{{"user", "u"}}, true))
 	conn.WaitQuiet(WaitTimeout) //nolint
@@ -248,10 +256,15 @@ func PlayCopyBin(scn M, rng *rand.Rand) ([]M, error) {
 		conn.Send(pgw.CopyData(ch))
 	}
 	conn.Send(pgw.CopyDone())
-	conn.Send(pgw.Sync())
 	wedged := false
 	if _, err := conn.WaitQuiet(WaitTimeout); err != nil {
 		wedged = true
+	}
+	if !wedged && !conn.ServerClosed() {
+		conn.Send(pgw.Query("q2")) // the connection is still in step: the next query is answered
+		if _, err := conn.WaitQuiet(WaitTimeout); err != nil {
+			wedged = true
+		}
 	}
 	if !wedged && !conn.ServerClosed() {
 		conn.CloseClient()
@@ -275,35 +288,63 @@ func PlayCopyBin(scn M, rng *rand.Rand) ([]M, error) {
 			out = append(out, M{"k": "row", "fields": c["fields"]})
 		case "bin.end":
 			out = append(out, M{"k": "end", "ret": c["ret"]})
+		case "bin.again":
+			out = append(out, M{"k": "again", "ret": c["ret"]})
 		}
 	}
+	// the conversation from the CopyInResponse on: kinds of the backend messages
+	pj := &Projector{Conn: conn.ID}
+	for _, e := range x.Log.Events() {
+		pj.Feed(e)
+	}
+	pj.Finish()
+	kinds := []any{}
+	seenG := false
+	for _, o := range pj.Out {
+		if o["k"] != "recv" {
+			continue
+		}
+		t := S(AsM(o["m"]), "t")
+		if t == "G" {
+			seenG = true
+			continue
+		}
+		if seenG {
+			kinds = append(kinds, t)
+		}
+	}
+	conv := M{"k": "conv", "mode": mode, "kinds": kinds}
 	if wedged {
 		out = append(out, M{"k": "wedged"})
 	}
-	if last := out[len(out)-1]; last["k"] != "end" {
+	if last := out[len(out)-1]; last["k"] != "end" && last["k"] != "again" && last["k"] != "wedged" {
 		out = append(out, M{"k": "end", "ret": "missing"}) // the reader never reported how the stream ended
 	}
+	out = append(out, conv)
 	return out, nil
 }
 
 // binCopy is the handler operation: read every row through the library's
 // binary row reader and report what it returned.
-func (x *Exec) binCopy(ctx context.Context, cr *wire.CopyReader, st M) {
+func (x *Exec) binCopy(ctx context.Context, cr *wire.CopyReader, st M) error {
 	r, err := wire.NewBinaryColumnReader(ctx, cr)
 	if err != nil {
 		x.cb(ctx, M{"name": "bin.end", "ret": "err"})
-		return
+		return err
 	}
 	cols := L(st, "cols")
 	for n := 0; n < 100000; n++ {
 		row, err := r.Read(ctx)
 		if err == io.EOF {
 			x.cb(ctx, M{"name": "bin.end", "ret": "eof"})
-			return
+			// the end of the stream is final: reading again says so again
+			_, err2 := r.Read(ctx)
+			x.cb(ctx, M{"name": "bin.again", "ret": retClass(err2)})
+			return nil
 		}
 		if err != nil {
 			x.cb(ctx, M{"name": "bin.end", "ret": "err"})
-			return
+			return err
 		}
 		fields := []any{}
 		for j, v := range row {
@@ -325,6 +366,7 @@ func (x *Exec) binCopy(ctx context.Context, cr *wire.CopyReader, st M) {
 		x.cb(ctx, M{"name": "bin.row", "fields": fields})
 	}
 	x.cb(ctx, M{"name": "bin.end", "ret": "runaway"})
+	return nil
 }
 
 var _ = mem.ErrTimeout
